@@ -431,16 +431,30 @@ func cmdCheck(args []string) int {
 		return false
 	}
 	skippedKnown := 0
+	// violations that match no listed finding come first and have the budget to themselves (3 per check
+	// id, 12 in all); of those that match a listed finding, the earliest of each harness/check pair is
+	// re-verified so that its KNOWN-FINDING line is backed by a replay
 	for _, v := range viols {
+		if isKnown(v) {
+			continue
+		}
 		if perCheck[v.Check] >= 3 || len(chosen) >= 12 {
-			if isKnown(v) {
-				skippedKnown++
-			} else {
-				skipped++
-			}
+			skipped++
 			continue
 		}
 		perCheck[v.Check]++
+		chosen = append(chosen, v)
+	}
+	knownSeenPair := map[string]int{}
+	for _, v := range viols {
+		if !isKnown(v) {
+			continue
+		}
+		if knownSeenPair[v.Harness+"|"+v.Check] >= 3 {
+			skippedKnown++
+			continue
+		}
+		knownSeenPair[v.Harness+"|"+v.Check]++
 		chosen = append(chosen, v)
 	}
 	type rv struct {
